@@ -168,6 +168,7 @@ type FnVC struct {
 	usesLocks       bool
 	qcount          int
 	makeSites       []makeSite
+	returns         []retRec
 }
 
 func (f *FnVC) warn(format string, a ...any) {
@@ -244,7 +245,7 @@ func (f *FnVC) posString(p token.Pos) string {
 		return ""
 	}
 	pp := f.E.Fset.Position(p)
-	return fmt.Sprintf("%s:%d", strings.TrimPrefix(pp.Filename, "/repo/"), pp.Line)
+	return fmt.Sprintf("%s:%d", strings.TrimPrefix(pp.Filename, f.E.RepoDir+"/"), pp.Line)
 }
 
 func (f *FnVC) oblige(kind, key string, st *State, goal Term, pos token.Pos, desc string) *Obligation {
